@@ -188,3 +188,30 @@ def run(chk: Check, eng: Engine) -> None:
     else:
         chk.bad("R16-e", eng.relfile(mu), mu.line, mu.fq, f"mutate() draws {len(choices)} time(s) but filters read-only nodes only {len(filters)} time(s)",
                 "a generator-owned node can be chosen as mutation target", keyparts="mutation-readonly")
+
+
+# ------------------------------------------------------------------ self-test variants
+from ..mutants import M  # noqa: E402
+
+_T = "src/fandango/language/tree.py"
+_NT = "src/fandango/language/grammar/nodes/non_terminal.py"
+_G = "src/fandango/language/grammar/grammar.py"
+_MU = "src/fandango/evolution/mutation.py"
+_CX = "src/fandango/evolution/crossover.py"
+MUTANTS = [
+    M("guard-drops-readonly", _T, "            and self.symbol == path_to_replacement[current_path].symbol\n            and not self.read_only\n", "            and self.symbol == path_to_replacement[current_path].symbol\n", "R16-a"),
+    M("seal-only-with-sender", _NT, "            for child in generated.children:\n                child.set_all_read_only(True)\n", "            if self.sender is None:\n                for child in generated.children:\n                    child.set_all_read_only(True)\n", "R16-b"),
+    M("populate-sources-no-seal", _G, "            tree.sources = self.derive_sources(tree)\n            for child in tree.children:\n                child.set_all_read_only(True)\n            return", "            tree.sources = self.derive_sources(tree)\n            return", "R16-b"),
+    M("misfit-falls-back-to-fuzz", _G, "        if tree is None:\n            raise FandangoParseError(\n                f\"Could not parse {string!r} (generated by {self.generators[symbol]}) into {symbol.format_as_spec()}\"\n            )",
+      "        if tree is None:\n            LOGGER.warning(f\"Could not parse {string!r} into {symbol.format_as_spec()}\")\n            tree = self.fuzz(symbol)", "R16-c"),
+    M("generate-parses-under-start", _G, "        tree = self.parse(string, symbol)\n        if tree is None:", "        tree = self.parse(string)\n        if tree is None:", "R16-c"),
+    M("regen-only-for-children", _T, "            sources.append(new_param)\n            if new_param != param:\n                regen_children = True", "            sources.append(new_param)\n            if new_param != param:\n                regen_params = True", "R16-d"),
+    M("regen-skipped-when-readonly", _T, "            else:\n                new_tree.set_children(grammar.derive_generator_output(new_tree))", "            elif not new_tree.read_only:\n                new_tree.set_children(grammar.derive_generator_output(new_tree))", "R16-d"),
+    M("crossover-includes-readonly", _CX, "        nodes1 = parent1.find_all_nodes(symbol)\n", "        nodes1 = parent1.find_all_nodes(symbol, False)\n", "R16-e"),
+    M("mutation-descendants-unfiltered", _MU, "        subtrees = [node_to_mutate] + list(\n            filter(\n                lambda x: (not x.read_only) and (x.symbol.is_non_terminal),\n                node_to_mutate.descendants(),\n            )\n        )",
+      "        subtrees = [node_to_mutate] + list(\n            filter(\n                lambda x: x.symbol.is_non_terminal,\n                node_to_mutate.descendants(),\n            )\n        )", "R16-e"),
+    M("find-all-nodes-default-false", _T, "    def find_all_nodes(\n        self, symbol: NonTerminal, exclude_read_only: bool = True\n    )", "    def find_all_nodes(\n        self, symbol: NonTerminal, exclude_read_only: bool = False\n    )", "R16-e"),
+]
+TWINS = [
+    M("twin-seal-loop-var", _NT, "            for child in generated.children:\n                child.set_all_read_only(True)\n", "            for gen_child in generated.children:\n                gen_child.set_all_read_only(True)\n", None),
+]
